@@ -109,10 +109,18 @@ def check(ctx):
             n_join += 1
             sep = n.func.value.value
             arg = n.args[0] if n.args else None
-            # do the joined parts carry their own length?  (a part built as len-prefixed)
-            src = ast.unparse(f)
-            has_len = 'len(' in src or 'repr(' in src or 'pack(' in src or 'hashlib' in src or 'digest' in src
-            ok = bool(sep) or has_len
+            ok = bool(sep)
+            if not ok and isinstance(arg, (ast.ListComp, ast.GeneratorExp)):
+                # every part carries its own length:  len(<loop variable>) occurs in the element expression
+                lv = {x for g in arg.generators for x in flow.target_names(g.target)}
+                ok = any(isinstance(c, ast.Call) and isinstance(c.func, ast.Name) and c.func.id == 'len' and c.args
+                         and isinstance(c.args[0], ast.Name) and c.args[0].id in lv for c in ast.walk(arg.elt))
+            if not ok and isinstance(arg, ast.Name):
+                # a list of fixed-size digests is unambiguous too
+                apps = [c for c in walk_no_nested(f) if isinstance(c, ast.Call) and isinstance(c.func, ast.Attribute) and c.func.attr == 'append'
+                        and isinstance(c.func.value, ast.Name) and c.func.value.id == arg.id and c.args]
+                ok = bool(apps) and all(isinstance(c.args[0], ast.Call) and isinstance(c.args[0].func, ast.Attribute)
+                                        and c.args[0].func.attr in ('digest', 'hexdigest') for c in apps)
             ctx.instance('C17.R2', '%s %s' % (fq, norm_stmt(Model.enclosing_stmt(n))), 'ok' if ok else 'VIOLATION', node=n, file=F)
             if not ok:
                 ctx.violation('C17.R2', F, n, fq,
@@ -236,7 +244,11 @@ def check(ctx):
 
 
 MUTANTS = [
-    dict(name='key drops the codec', file=F, old="key = [codec.encode('ascii')]", new="key = []", expect='C17.R1'),
+    dict(name='key drops the codec', file=F, old="        repr((codec,\n", new="        repr((\n", expect='C17.R1'),
+    dict(name='key drops numeric_enums', file=F, old="              encoding,\n              numeric_enums)).encode('utf-8')", new="              encoding)).encode('utf-8')", expect='C17.R1'),
+    dict(name='key parts joined without length prefix', file=F,
+         old="""    key = b''.join([str(len(part)).encode('ascii') + b':' + part
+                    for part in key])""", new="""    key = b''.join(key)""", expect='C17.R2'),
     dict(name='cached path forces numeric_enums=False', file=F,
          old="""                                codec,
                                 any_defined_by_choices,
